@@ -17,6 +17,7 @@ owner told (connection_lost(exc)), bytes written and loop turns per input, the l
 tasks left behind.
 """
 import asyncio
+import concurrent.futures
 import gc
 import json
 import os
@@ -31,6 +32,19 @@ PHASES = ['prekex', 'inkex', 'postkex', 'inauth', 'authed', 'chan']
 EXTREMES = [0, 1, 2 ** 31, 2 ** 32 - 1]
 CASE_ALARM = 20            # seconds before SIGALRM interrupts one job (a job normally takes milliseconds)
 SETTLE_LIMIT = 3000        # loop turns after which a payload is reported as "never settles"
+
+
+class InlineExecutor(concurrent.futures.ThreadPoolExecutor):
+    """run_in_executor() work (config reloads, option loading) done on the spot: no thread, no wall clock, the
+    continuation is scheduled in the next loop turn"""
+
+    def submit(self, fn, *args, **kwargs):
+        f = concurrent.futures.Future()
+        try:
+            f.set_result(fn(*args, **kwargs))
+        except BaseException as e:                  # noqa
+            f.set_exception(e)
+        return f
 
 
 class Hang(BaseException):
@@ -358,17 +372,24 @@ def host_key_pair():
 
 
 async def until(link, cond, what, turns=4000):
-    for _ in range(turns):
+    deadline = time.monotonic() + 20
+    n = 0
+    while True:
         link.pump()
         if cond():
             return True
         if link.closed and not link.to_mini:
             return False
-        await asyncio.sleep(0)
-    return False
+        n += 1
+        if n > turns:
+            if time.monotonic() > deadline:
+                return False
+            await asyncio.sleep(0.001)
+        else:
+            await asyncio.sleep(0)
 
 
-async def open_server_role(phase, seed, chunk):
+async def open_server_role(phase, seed, chunk, job=None):
     """asyncssh is the SERVER, the hostile peer the client.  Returns Ctl at the requested phase."""
     asyncssh, M, S = _imports()
     c = Ctl()
@@ -496,7 +517,7 @@ async def open_server_role(phase, seed, chunk):
     return c
 
 
-async def open_client_role(phase, seed, chunk):
+async def open_client_role(phase, seed, chunk, job=None):
     """asyncssh is the CLIENT (connect() with a password, a server_host_keys_handler and a trusted key),
     the hostile peer the server."""
     asyncssh, M, S = _imports()
@@ -599,7 +620,8 @@ async def open_client_role(phase, seed, chunk):
     r = M.Reader(c.last, 1)
     r.get_string()
     c.chan = r.get_u32()
-    mini.send(M.channel_open_confirmation(c.chan, c.peer_chan, 1 << 21, 32768))
+    win, mp = (job or {}).get('open_params') or (1 << 21, 32768)
+    mini.send(M.channel_open_confirmation(c.chan, c.peer_chan, win, mp))
 
     def serve():
         while cur[0] < len(mini.inbox):
@@ -613,8 +635,14 @@ async def open_client_role(phase, seed, chunk):
                     mini.send(M.channel_success(c.chan))
         return opening.done()
     if not await until(link, serve, 'create_session'):
+        if (job or {}).get('open_params'):
+            c.opening = opening                       # hostile parameters: the open may be refused
+            return c
         raise RuntimeError('bring-up: create_session did not return')
     c.opening = opening
+    if (job or {}).get('open_params') and opening.exception() is None:
+        chan, _sess = opening.result()
+        chan.write(b'hello' * 10)                     # makes the send loop run with the peer's parameters
     await settle(link)
     return c
 
@@ -629,13 +657,14 @@ async def run_job(job):
     """one connection; returns the observations"""
     asyncssh, M, S = _imports()
     loop = asyncio.get_running_loop()
+    loop.set_default_executor(InlineExecutor(max_workers=1))
     loop_errors = []
     loop.set_exception_handler(lambda l, ctx: loop_errors.append(
         '%s | %r' % (ctx.get('message'), ctx.get('exception'))))
     before_tasks = set(asyncio.all_tasks())
     role, phase = job['role'], job['phase']
     opener = open_server_role if role == 'server' else open_client_role
-    c = await opener(phase, job.get('seed', 0), job.get('chunk'))
+    c = await opener(phase, job.get('seed', 0), job.get('chunk'), job)
     link = c.link
     res = {'steps': [], 'bringup_closed': link.closed}
     items = [('raw', bytes.fromhex(h)) for h in job.get('raw', [])] + \
@@ -708,13 +737,22 @@ async def run_job(job):
         op.exception()
     gc.collect()
     await asyncio.sleep(0)
-    left = [t for t in asyncio.all_tasks() if t not in before_tasks and t is not asyncio.current_task() and not t.done()]
+    def leftover():
+        return [t for t in asyncio.all_tasks()
+                if t not in before_tasks and t is not asyncio.current_task() and not t.done()]
+    left = leftover()
+    waited = 0
+    while left and waited < 60:                     # something may really be in another thread: give it time
+        await asyncio.sleep(0.05)
+        waited += 1
+        left = leftover()
     res['leftover_tasks'] = [repr(t.get_coro())[:160] for t in left]
     for t in left:
         t.cancel()
     if left:
         await asyncio.sleep(0)
-    res['loop_errors'] = loop_errors
+    res['loop_errors'] = [e for e in loop_errors if 'Hang(' not in e]
+    res['hangs'] = list(HANG_LOG)
     return res
 
 
@@ -723,6 +761,11 @@ def judge(job, res):
     bad = []
     if 'error' in res:
         return bad
+    for h in res.get('hangs', []):
+        import re
+        fr = re.findall(r'File "([^"]*)", line (\d+), in (\S+)', h)
+        bad.append('the event loop was BLOCKED (no progress within the watchdog time); innermost frames: ' +
+                   ' <- '.join('%s:%s %s' % (os.path.basename(f), ln, fn) for f, ln, fn in reversed(fr[-5:])))
     for i, st in enumerate(res.get('steps', [])):
         if st['turns'] is None:
             bad.append('step %d: the event loop never became idle (%d turns) after %d input bytes' % (i, SETTLE_LIMIT, st['in']))
@@ -756,11 +799,14 @@ def judge(job, res):
 # ------------------------------------------------------------------------------------------------
 # batch runner (child process)
 
-PROGRESS = {'sent': 0}
+HANG_LOG = []              # stacks taken by the watchdog (a Hang raised inside a task is swallowed by the task)
+STATE = {'alarm': CASE_ALARM, 'hangs': 0}
 
 
 def _alarm(signum, frame):
-    raise Hang('SIGALRM after %d s in:\n%s' % (CASE_ALARM, ''.join(traceback.format_stack(frame, 14))))
+    where = ''.join(traceback.format_stack(frame, 8))
+    HANG_LOG.append(where[-1500:])
+    raise Hang('no progress for %d s; innermost frames when the watchdog fired:\n%s' % (STATE['alarm'], where))
 
 
 def run_connections(job, emit):
@@ -775,13 +821,21 @@ def run_connections(job, emit):
         sub = dict(job)
         if items[0] is not None:
             sub['payloads'] = items[i:i + job.get('per_conn', 8)]
-        signal.alarm(job.get('alarm', CASE_ALARM))
+        if STATE['hangs'] >= 3:                     # circuit breaker: a spinning endpoint must stay cheap
+            emit({'first': i, 'count': len(items) - i, 'skipped': True})
+            return
+        STATE['alarm'] = job.get('alarm', CASE_ALARM)
+        del HANG_LOG[:]
+        signal.alarm(STATE['alarm'])
         rec = {'first': i}
         try:
             res = asyncio.run(run_job(sub))
             rec['res'] = res
             rec['count'] = max(1, res.get('sent', 1))
+            if res.get('hangs'):
+                STATE['hangs'] += 1
         except Hang as e:
+            STATE['hangs'] += 1
             rec['hang'] = str(e)[-1800:]
             rec['count'] = len(sub.get('payloads', [])) or 1
         except Exception as e:                      # bring-up or harness failure: reported, never silent
@@ -804,7 +858,8 @@ def run_parser_stage(job):
     rec = {'first': 0, 'count': 1}
     root = tempfile.mkdtemp(prefix='c10-')
     P.PROGRESS.clear()
-    signal.alarm(job.get('alarm', 60))
+    STATE['alarm'] = job.get('alarm', 60)
+    signal.alarm(STATE['alarm'])
     try:
         if stage == 'getters':
             cases, bad, stats = P.getters_run(rng, n)
